@@ -183,7 +183,7 @@ struct Scenario {
 
 /// task kinds: 1 update(id, value)  2 subscribe(id)  3 subscribe_query(id)  4 housekeeping
 ///             5 provide(id, id2 or -1)  6 actuate(id)  7 batch(id, id2)  8 add_entry(name index)
-///             9 get(id)  10 shutdown
+///             9 get(id)  10 shutdown  11 subscribe(id) and drop the stream  12 subscribe_query(id) and drop the stream
 fn make(spec: &[(Tok, Tok, Tok)], on_change: bool) -> Scenario {
     let b = setup(if on_change { ChangeType::OnChange } else { ChangeType::Continuous });
     // an owner for actuator 2 so that actuate/batch on it can succeed
@@ -260,6 +260,17 @@ fn make(spec: &[(Tok, Tok, Tok)], on_change: bool) -> Scenario {
             9 => Box::pin(async move {
                 let a = bb.authorized_access(&ALLOW_ALL);
                 a.get_datapoint(x as i32).await.is_ok() as Tok
+            }),
+            11 => Box::pin(async move {
+                // a change subscriber that goes away at once: registered, its receiver dropped
+                let a = bb.authorized_access(&ALLOW_ALL);
+                a.subscribe(HashMap::from([(x as i32, HashSet::from([Field::Datapoint]))]), Some(1000)).await.is_ok() as Tok
+            }),
+            12 => Box::pin(async move {
+                // a query subscriber that goes away at once
+                let a = bb.authorized_access(&ALLOW_ALL);
+                let name = ["Vehicle.A", "Vehicle.B", "Vehicle.C"][(x as usize) % 3];
+                a.subscribe_query(&format!("SELECT {name}")).await.is_ok() as Tok
             }),
             _ => Box::pin(async move {
                 bb.shutdown().await;
